@@ -76,6 +76,12 @@ def codeLex (dec thou : String) : Nat → List Char → Option (List (Tok F))
           (codeLex dec thou fuel rest).map (fun ts => .op (Op.ofChar c) :: ts)
         else none
 
+/-- the lexer on a whole line of that alphabet: a comment (`#` to the end of the line) is claimed
+    first and dropped, the rest is scanned by `codeLex` -/
+def lexLine (dec thou : String) (line : List Char) : Option (List (Tok F)) :=
+  let body := line.takeWhile (· ≠ '#')
+  codeLex dec thou (body.length + 1) body
+
 /-- `SmartCalc::basic_execute` on a code text: tokens (no post-processing), parse, interpret;
     the result must be an item, whose underlying number is returned -/
 def basicExecute (dec thou : String) (code : List Char) : Option F :=
